@@ -220,6 +220,7 @@ type childPool struct {
 	self string
 	c    *childProc
 	n    int
+	env  []string // extra environment of the child
 }
 
 func newChildPool() *childPool {
@@ -229,7 +230,7 @@ func newChildPool() *childPool {
 
 func (p *childPool) start() error {
 	cmd := exec.Command(p.self, "child")
-	cmd.Env = append(os.Environ(), "GOMEMLIMIT=6GiB", "GOTRACEBACK=single")
+	cmd.Env = append(append(os.Environ(), "GOMEMLIMIT=6GiB", "GOTRACEBACK=single"), p.env...)
 	in, _ := cmd.StdinPipe()
 	outp, _ := cmd.StdoutPipe()
 	cmd.Stderr = nil
